@@ -3,6 +3,8 @@ package props
 import (
 	"go/types"
 
+	"golang.org/x/tools/go/ssa"
+
 	"bbcheck/internal/an"
 )
 
@@ -33,6 +35,7 @@ func init() {
 			fieldClassCensus(c)
 			atomWitnesses(c)
 			bufferWriterAudit(c) // values are published by copying them into the buffer's own array under the lock (no aliasing of caller memory)
+			lazyWriteOnce(c)     // the premise of Buffer.ensure's unlocked double-checked reads
 			out := c.sel(func(o *an.Oblig) bool {
 				return ruleIn(o, "G", "CLS", "ESC", "HO", "ANCHOR") || isUndecided(o)
 			})
@@ -120,4 +123,33 @@ func contains2(s, sub string) bool {
 		}
 	}
 	return false
+}
+
+// lazyWriteOnce: Buffer.ensure reads ctx, cancel, consumers, done and cond without the lock (double-checked
+// initialisation). Those reads are race-free only while each of the fields is written once, by its initialiser in
+// ensure: a later store anywhere else - even under the write lock - races with every concurrent public call.
+func lazyWriteOnce(c *Ctx) {
+	P := c.P
+	for _, f := range []string{"Buffer.ctx", "Buffer.cancel", "Buffer.consumers", "Buffer.done", "Buffer.cond"} {
+		var stray []ssa.Instruction
+		n := 0
+		for _, fn := range P.AllFuncs() {
+			for _, st := range an.FieldStores(fn, f) {
+				n++
+				host := fn
+				for host.Parent() != nil {
+					host = host.Parent()
+				}
+				if an.FuncName(an.Host(host)) != "(*Buffer).ensure" {
+					stray = append(stray, st)
+				}
+			}
+		}
+		var sp []string
+		for _, in := range stray {
+			sp = append(sp, P.InstrPos(in))
+		}
+		c.C.Add("WR", "(*Buffer).ensure", f+" is written only by its lazy initialiser", len(stray) == 0 && n > 0,
+			pickS(len(stray) == 0, "every store is in a closure of ensure", f+" is stored outside ensure: ensure's unlocked `== nil` test of it (made by every public method) races with that store"), sp...)
+	}
 }
